@@ -1,7 +1,7 @@
 """C07 - altitude codes, exhaustive over all 8192 / 4096 codes x carriers x backgrounds."""
 from engine import loader
 from engine.runner import Acc
-from engine.util import call, chunks, other_bits
+from engine.util import call, chunks, other_bits, vary_case
 from spec import altitude as A
 from spec import frames as F
 
@@ -90,6 +90,7 @@ def w_codes(arg):
 
     def do(kind, code, msg):
         acc.n += 1
+        msg = vary_case(msg, acc.n)
         sig = judge(kind, code, msg)
         if sig:
             acc.bad(sig, {"kind": kind, "code": code, "msg": msg})
